@@ -20,13 +20,14 @@ func (Precompile).IsTransaction
     ensures c05_transfer: method == "transfer" ==> result
     ensures exact: result == IcsIsTx(method)
 
-// RequiredGas (called by vm.runPrecompiledContract with the raw call data, before Run). FINDING AA1: `input[:4]` panics on call data
+// RequiredGas (called by vm.runPrecompiledContract with the raw call data, before Run). (finding AA1, fixed) `input[:4]` panicked on call data
 // shorter than four bytes - nothing at the call site guarantees them
 func (Precompile).RequiredGas
     requires golen: 0 <= len(input) && len(input) <= 9223372036854775807
-    ensures unknown: ret(MethodById, 1, 1) != nil ==> result == 0
-    ensures tx: ret(MethodById, 1, 1) == nil && IcsIsTx(ret(MethodById, 1, 0).Name) ==> result == p.KvGasConfig.WriteCostFlat + p.KvGasConfig.WriteCostPerByte * (len(input) - 4)
-    ensures query: ret(MethodById, 1, 1) == nil && !IcsIsTx(ret(MethodById, 1, 0).Name) ==> result == p.KvGasConfig.ReadCostFlat + p.KvGasConfig.ReadCostPerByte * (len(input) - 4)
+    ensures short: len(input) < 4 ==> result == 0
+    ensures unknown: len(input) >= 4 && ret(MethodById, 1, 1) != nil ==> result == 0
+    ensures tx: len(input) >= 4 && ret(MethodById, 1, 1) == nil && IcsIsTx(ret(MethodById, 1, 0).Name) ==> result == p.KvGasConfig.WriteCostFlat + p.KvGasConfig.WriteCostPerByte * (len(input) - 4)
+    ensures query: len(input) >= 4 && ret(MethodById, 1, 1) == nil && !IcsIsTx(ret(MethodById, 1, 0).Name) ==> result == p.KvGasConfig.ReadCostFlat + p.KvGasConfig.ReadCostPerByte * (len(input) - 4)
 
 // every method consumes SDK gas on the meter of the context it is given (a larger frame: nothing to re-verify)
 extend func (Precompile).Approve
@@ -48,12 +49,11 @@ extend func (Precompile).DenomHash
 // (Precompile).Allowance has no contract in any tag: ASSUMED effect-free in specs/c05r/62_ics20_allowance.spec (not verified)
 
 // ---- Run. Preconditions: facts of the call chain vm.EVM.Call / CallCode / DelegateCall / StaticCall -> runPrecompiledContract -> Run,
-// of NewPrecompile (keepers set) and of the embedded abi.json. `value`: see FINDING AA2 (RunSetup).
+// of NewPrecompile (keepers set) and of the embedded abi.json. a nil `value` (DELEGATECALL) is handled since the AA2 fix.
 func (Precompile).Run
     requires wf: evm != nil && contract != nil && p.stakingKeeper.Keeper != nil && p.transferKeeper.Keeper != nil
     requires sdb: isdyn(evm.StateDB, *SDB) ==> dyn(evm.StateDB, *SDB) != nil && ctx_height(dyn(evm.StateDB, *SDB).ctx) >= 0
     requires golen: len(contract.Input) >= 0
-    requires value: len(contract.Input) == 0 ==> contract.value != nil
     requires abi_events: len(p.ABI.Events["IBCTransferAuthorization"].Inputs) == 3 && len(p.ABI.Events["IBCTransfer"].Inputs) == 7
     requires abi_inputs: len(p.ABI.Methods["transfer"].Inputs) == 9 && len(p.ABI.Methods["approve"].Inputs) == 2
     // increaseAllowance / decreaseAllowance(address, string, string, string, uint256): the fifth input is unsigned (abi.UintTy == 1)
